@@ -638,6 +638,45 @@ def _oracle_atomgrid(ctx: Ctx, ang, n):
                                       "assert [int(g.indices[i+1]-g.indices[i]) for i in range(len(seq))] == [w[1] for w in want], want\n"))
 
 
+    # pruned atomic grids: every shell of a sector gets the smallest supported degree (size) of ITS method not below the sector's
+    # request, over the whole range of the method (beyond the Lebedev maximum 131 for the other three methods too); the sector
+    # bounds are put far below / above all radial points so that the sector assignment itself (C05) plays no role
+    for m in METHODS:
+        npts = getattr(ang, PREFIX[m] + "_NPOINTS")
+        dmax, smax = max(npts.values()), max(npts)
+        for kind in ("deg", "size"):
+            for _ in range(max(2, n // 2)):
+                top = dmax if kind == "deg" else min(smax, 6000)
+                req = [ctx.rng.randrange(0, top + 1), ctx.rng.choice([ctx.rng.randrange(0, top + 1), ctx.rng.randrange(max(0, top - 40), top + 1), ctx.rng.randrange(0, 40)])]
+                which = ctx.rng.randrange(2)
+                bound = [1e-9, 1e9][1 - which]          # all shells in sector `which`
+                with warnings.catch_warnings():
+                    warnings.simplefilter("ignore")
+                    rg = GaussLaguerre(3)
+                    kw = {"d_sectors": list(req)} if kind == "deg" else {"s_sectors": list(req)}
+                    try:
+                        g = AtomGrid.from_pruned(rg, 1.0, r_sectors=[bound], method=m, **kw)
+                        got, shells = [int(x) for x in g.degrees], [int(g.indices[i + 1] - g.indices[i]) for i in range(3)]
+                    except Exception as e:
+                        got, shells = f"{type(e).__name__}: {str(e)[:80]}", None
+                # both sector requests are converted (a conversion error for the unused sector is still an error of the call)
+                want, wsz = [_want(ang, m, kind, req[which])[0]] * 3, [_want(ang, m, kind, req[which])[1]] * 3
+                ctx.count(["from_pruned", m, kind, req, which], nontrivial=True, tag=f"from_pruned:{m}")
+                if got != want or shells != wsz:
+                    ctx.fail("oracle", f"angular:{m}:atomgrid:from_pruned",
+                             f"AtomGrid.from_pruned(GaussLaguerre(3), 1.0, r_sectors=[{bound}], {'d' if kind == 'deg' else 's'}_sectors={req}, method={m}): shell degrees {got} / sizes {shells}; "
+                             f"all shells lie in sector {which}: smallest supported not below {req[which]} is degree {want[0]} / size {wsz[0]}",
+                             witness={"method": m, "kind": kind, "request": req, "sector": which, "got": got, "want": want},
+                             snippet=("import warnings; warnings.filterwarnings('ignore')\nfrom grid import angular as ang\nfrom grid.atomgrid import AtomGrid\nfrom grid.onedgrid import GaussLaguerre\n"
+                                      f"m, kind, req, which, bound = {m!r}, {kind!r}, {req!r}, {which}, {bound!r}\n"
+                                      "P = {'lebedev':'LEBEDEV','spherical':'SPHERICAL','maxdet':'MAX_DET','ahrens_beylkin':'AHRENS_BEYLKIN'}\n"
+                                      "npts = getattr(ang, P[m] + '_NPOINTS')\n"
+                                      "kw = {'d_sectors': req} if kind == 'deg' else {'s_sectors': req}\n"
+                                      "g = AtomGrid.from_pruned(GaussLaguerre(3), 1.0, r_sectors=[bound], method=m, **kw)\n"
+                                      "w = min((d, s) for s, d in npts.items() if (d if kind == 'deg' else s) >= req[which])\n"
+                                      "assert [int(x) for x in g.degrees] == [w[0]] * 3 and [int(g.indices[i+1]-g.indices[i]) for i in range(3)] == [w[1]] * 3, ([int(x) for x in g.degrees], w)\n"))
+
+
 def oracle_at(ctx: Ctx, failure):
     """Evaluate the property itself at an input on which model and implementation disagreed."""
     ang = importlib.import_module("grid.angular")
